@@ -98,10 +98,26 @@ func (t *formatFMP4Track) write(sample *formatFMP4Sample) error {
 	}
 
 	if t.f.currentSegment == nil {
+		startDTS := dts
+		startNTP := sample.ntp
+
+		// if a video track has an older pending sample, start the first segment from it,
+		// otherwise it would get a negative basetime and be discarded,
+		// and the segment would start without its initial key frame.
+		for _, track := range t.f.tracks {
+			if track != t && track.nextSample != nil && track.initTrack.Codec.IsVideo() {
+				otherDTS := timestampToDuration(track.nextSample.dts, int(track.initTrack.TimeScale))
+				if otherDTS < startDTS && (dts-otherDTS) <= maxBasetime {
+					startDTS = otherDTS
+					startNTP = track.nextSample.ntp
+				}
+			}
+		}
+
 		t.f.currentSegment = &formatFMP4Segment{
 			f:        t.f,
-			startDTS: dts,
-			startNTP: sample.ntp,
+			startDTS: startDTS,
+			startNTP: startNTP,
 			number:   t.f.nextSegmentNumber,
 		}
 		t.f.currentSegment.initialize()
